@@ -67,8 +67,10 @@ def check_case(case, impl, model):
 
 def some_input(rng):
     k = rng.random()
-    if k < 0.25:
+    if k < 0.15:
         return tokgen.random_bytes(rng, rng.choice([1, 3, 8, 20, 60]))
+    if k < 0.35:
+        return tokgen.torture(rng)
     t = tokgen.gen_text(rng)
     if k < 0.45:
         return t
